@@ -331,7 +331,8 @@ func TestVerif_C41(t *testing.T) {
 	awkward := []string{"", "x", "<", "</", "<a", "<!--", "</table>", "<table><td>x</table>y", "<svg><p>", "</svg><b>", "<select><table>", "<template><tr><td></template>x",
 		"<![CDATA[x]]>", "<math><annotation-xml encoding=text/html><b></math>", "<frameset><frame></frameset>", "</p><p></br>", "<form><form><input><isindex>", "<a><table><a>", "<b><p></b>x",
 		"<li><li><dd><dt><option><optgroup>", "<body><html a=b><body c=d>", "<plaintext></plaintext>", "<script><!--<script></script>--></script>", "\x00<\x00b\x00>\x00", "<title>&amp;</title><textarea>\n\nx</textarea>",
-		"<svg><foreignObject><svg><title><p><svg>", "<table><caption><select><tr>", "<ruby><rb><rt><rtc><rp>", "<font color><svg><font color><font>", "<nobr><nobr><nobr>", "<button><button><p><button>"}
+		"<svg><foreignObject><svg><title><p><svg>", "<table><caption><select><tr>", "<ruby><rb><rt><rtc><rp>", "<font color><svg><font color><font>", "<nobr><nobr><nobr>", "<button><button><p><button>",
+		"<noscript>x</noscript>y", "x</html>y<html a=b>z", "<frameset><frame></frameset>x", "</head><title>x</title>", "<keygen>x", "<table><input><select>", "</b>x</p>y<a>"}
 	r.CasesParallel("contexts-x-awkward", len(verifFragmentContexts), 0, func(c *verifrt.Case) {
 		ctx := verifFragmentContexts[c.Index]
 		for _, in := range awkward {
@@ -344,7 +345,7 @@ func TestVerif_C41(t *testing.T) {
 	})
 
 	// 3. generated inputs
-	r.CasesParallel("generated", r.N(50000, 2000000), 0, func(c *verifrt.Case) {
+	r.CasesParallel("generated", r.N(30000, 2000000), 0, func(c *verifrt.Case) {
 		g := newVerifGen(c.Rng)
 		in, how := g.Input(1500)
 		ctx := verifCtx{Document: true}
@@ -358,7 +359,7 @@ func TestVerif_C41(t *testing.T) {
 	})
 
 	// 4. structural stress
-	r.CasesParallel("stress", r.N(4000, 100000), 0, func(c *verifrt.Case) {
+	r.CasesParallel("stress", r.N(2500, 100000), 0, func(c *verifrt.Case) {
 		g := newVerifGen(c.Rng)
 		depth := 1 + c.Rng.IntN(60)
 		if c.Rng.IntN(4) == 0 {
